@@ -580,6 +580,25 @@ theorem takes_effect_next_flush (msOf : String → MatcherSets) (env : Env) (ret
       obtain ⟨id, hid⟩ := h.mp hm
       rw [hall id] at hid; cases hid
 
+/-- C09's `effective_after_merge`: right after `Silences.Merge` of any message (repaired
+    discipline) — new silences, remote edits, remote expiries, revivals — the mute verdict of
+    an instance whose cache was valid before is the brute-force verdict on the merged state:
+    a silence created or expired through another instance's API is effective here as soon as
+    it has been merged. -/
+theorem effective_after_merge (msOf : String → MatcherSets) (env : Env) (now : Int) (ov : Bool) (s : Store) (c : Cache)
+    (b : List Mesh) (hi : IndexInv s) (hm : MiInv msOf s) (hc : CacheInv msOf env s c now)
+    (hok : ∀ e ∈ b, e.sil.sets = msOf e.sil.id) (ls : LabelSet) :
+    let s' := (mergeBatch true now ov s b).1
+    let r := mutes env s' c now ls
+    (r.muted = true ↔ ∃ id, activeMatching env s' now ls id = true) ∧
+    (∀ id, id ∈ r.silencedBy ↔ activeMatching env s' now ls id = true) := by
+  intro s' r
+  obtain ⟨hs, hm'⟩ := mergeBatch_step msOf true now ov s b hm hok rfl
+  have hi' := indexInv_mergeBatch true now ov s b hi
+  have hc' := cacheInv_step msOf env s s' c now hc hs
+  obtain ⟨h1, h2, _⟩ := mutes_correct msOf env s' c now ls hi' hm' hc'
+  exact ⟨h2, h1⟩
+
 /-! ### the pinned discipline (`fix = false`): partial theorem and counterexample -/
 
 /-- Under the pinned `Merge` (index only when added) the invariant still survives every
